@@ -171,7 +171,11 @@ impl Accept {
                 Some(WakerInterest::WorkerAvailable(idx)) => {
                     drop(guard);
 
-                    self.avail.set_available(idx, true);
+                    // The notice can arrive after its worker was removed as faulted; an index that
+                    // no handle owns must not be marked available or `accept_one` never finds it.
+                    if self.handles.iter().any(|handle| handle.idx() == idx) {
+                        self.avail.set_available(idx, true);
+                    }
 
                     if !self.paused {
                         self.accept_all(sockets);
